@@ -238,6 +238,9 @@ class CropperMonitor:
                                   None, dict(feats, what="len"))
                 if len(out) > 0:
                     self._advance(o, m, out, start, feats)
+                elif len(out) == want_len:
+                    # nothing valid is left: the (empty) result is stamped after the invalid leading samples, inside the input's span
+                    self._advance(o, m, out, b_, dict(feats, empty_result=True))
         elif name == "snippet":
             t, n = (args[1], args[2]) if len(args) > 2 else (kwargs.get("t", args[1] if len(args) > 1 else None), kwargs.get("n"))
             if len(out) != int(n):
@@ -291,6 +294,8 @@ class CropperMonitor:
                               None, dict(feats, what="len"))
             elif len(out) > 0:
                 self._advance(o, m, out, start, feats)
+            else:
+                self._advance(o, m, out, b_, dict(feats, empty_result=True))
         elif name == "incoherent_dedispersion":
             if len(out) == 0 or m["start"] is None:
                 if m["start"] is None and out.start_time is not None:
